@@ -28,6 +28,7 @@ var (
 	verifLedgerMu sync.Mutex
 	verifLedger   atomic.Value // func(VerifMsgEvent)
 	verifSerials  = map[*Message]int64{}
+	verifRefs     = map[*Message]int32{} // the ledger's own count, kept under verifLedgerMu
 	verifNext     int64
 )
 
@@ -35,6 +36,7 @@ var (
 func VerifSetMsgLedger(fn func(VerifMsgEvent)) {
 	verifLedgerMu.Lock()
 	verifSerials = map[*Message]int64{}
+	verifRefs = map[*Message]int32{}
 	verifLedgerMu.Unlock()
 	if fn == nil {
 		verifLedger.Store((func(VerifMsgEvent))(nil))
@@ -60,12 +62,16 @@ func verifMsgNew(m *Message, sz int) {
 	if fn == nil {
 		return
 	}
+	// Entries are emitted while holding the ledger lock so that their order
+	// and the counts they carry are one consistent linearization of the
+	// operations (the atomic count itself is read by nobody here).
 	verifLedgerMu.Lock()
 	verifNext++
 	s := verifNext
 	verifSerials[m] = s
-	verifLedgerMu.Unlock()
+	verifRefs[m] = 1
 	fn(VerifMsgEvent{Op: "new", Serial: s, Ref: 1, Len: sz, Cap: cap(m.Body), HLen: len(m.Header) + len(m.Body)})
+	verifLedgerMu.Unlock()
 }
 
 func verifMsgClone(m *Message) {
@@ -75,8 +81,10 @@ func verifMsgClone(m *Message) {
 	}
 	verifLedgerMu.Lock()
 	s := verifSerials[m]
+	ref := verifRefs[m]
+	verifRefs[m] = ref + 1
+	fn(VerifMsgEvent{Op: "clone", Serial: s, Ref: ref, Len: len(m.Body), Cap: cap(m.Body), HLen: len(m.Header)})
 	verifLedgerMu.Unlock()
-	fn(VerifMsgEvent{Op: "clone", Serial: s, Ref: atomic.LoadInt32(&m.refcnt), Len: len(m.Body), Cap: cap(m.Body), HLen: len(m.Header)})
 }
 
 func verifMsgFree(m *Message) {
@@ -84,14 +92,24 @@ func verifMsgFree(m *Message) {
 	if fn == nil {
 		return
 	}
-	ref := atomic.LoadInt32(&m.refcnt)
 	verifLedgerMu.Lock()
 	s := verifSerials[m]
-	if ref == 1 {
-		delete(verifSerials, m)
+	ref, known := verifRefs[m]
+	if !known {
+		// allocated before the ledger was installed, or already released
+		ref = atomic.LoadInt32(&m.refcnt)
+		if s == 0 {
+			ref = 0 // free of a message the ledger does not know as live
+		}
 	}
-	verifLedgerMu.Unlock()
+	if ref <= 1 {
+		delete(verifSerials, m)
+		delete(verifRefs, m)
+	} else {
+		verifRefs[m] = ref - 1
+	}
 	fn(VerifMsgEvent{Op: "free", Serial: s, Ref: ref, Len: len(m.Body), Cap: cap(m.Body), HLen: len(m.Header)})
+	verifLedgerMu.Unlock()
 	if ref == 1 {
 		// last reference: poison what is about to be released
 		b := m.Body[:cap(m.Body)]
